@@ -75,6 +75,7 @@ var forms = []string{
 	"type-switch-returns",      // switch any(v).(type) { case int: return lit0 }; { return lit1 }
 	"goto-label-return",        // if c { goto done }; return lit0; done: return lit1
 	"defer-and-closure-noise",  // defer func() { _ = func() int { return 9 }() }(); return lit1
+	"shadowing-local-consts",   // const w = "f<i>"; const n = 10+i; return w + w, n * 2: same text, another meaning per function
 	"named-compound-assign",    // named only: s, err = lits; n <<= uint8(3) style compound update of a local, bare return
 }
 
@@ -165,6 +166,23 @@ func (p Prog) body(i int) (src string, want [][]string) {
 		return "if cond {\n\t\tgoto done\n\t}\n\t" + ret(0) + "\ndone:\n\t" + ret(1), wantOf(0, 1)
 	case "defer-and-closure-noise":
 		return "defer func() { _ = func() int { return 9 }() }()\n\t" + ret(1), wantOf(1)
+	case "shadowing-local-consts":
+		var exprs []string
+		want := make([][]string, len(ts))
+		for pos, t := range ts {
+			switch t {
+			case "string":
+				exprs = append(exprs, "w + w")
+				want[pos] = []string{fmt.Sprintf("%q", fmt.Sprintf("f%df%d", i, i))}
+			case "int":
+				exprs = append(exprs, "n * 2")
+				want[pos] = []string{fmt.Sprint(2 * (10 + i))}
+			default:
+				exprs = append(exprs, "nil")
+				want[pos] = []string{"nil"}
+			}
+		}
+		return fmt.Sprintf("const w = \"f%d\"\n\tconst n = %d\n\t_, _ = w, n\n\treturn %s", i, 10+i, strings.Join(exprs, ", ")), want
 	case "named-compound-assign":
 		if shapes[sh].named != nil {
 			// s is updated with += (operand of another shape than the result must not leak into the alternatives)
